@@ -2,6 +2,7 @@ mod analysis;
 mod check;
 mod gen;
 mod oracle;
+mod profiles;
 mod props;
 mod refcodec;
 mod rng;
